@@ -62,13 +62,14 @@ func (q *WriteDedupQueue) StoreChunk(chunk *Chunk) error {
 	// This request is the first one for this chunk, execute as normal
 	err := q.S.StoreChunk(chunk)
 
+	// The upstream request has returned: drop it from the queue first, so that a caller arriving
+	// from here on starts a request of its own instead of being handed a result that was
+	// produced before its call began (this also avoids keeping the data in memory)
+	q.storeChunkQueue.delete(id)
+
 	// Signal to any others that wait for us that we're done, they'll use our data
 	// and don't need to hit the store themselves
 	req.markDone(chunk, err)
-
-	// We're done, drop the request from the queue to avoid keeping all the chunk data
-	// in memory after the request is done
-	q.storeChunkQueue.delete(id)
 
 	return err
 }
